@@ -833,7 +833,9 @@ func oracleC19(in string, fail failFn) int {
 				if i+1 < len(sch) {
 					nb := sch[i+1]
 					if hexDigit(nb) >= 0 {
-						b.WriteString(";")
+						// end the digit run: the semicolon, or a literal NUL / LF (ignored by the
+						// matcher, but it is what terminates the reference)
+						b.WriteString([]string{";", ";", "\x00", "\n", "\x00\x00"}[r.intn(5)])
 					}
 				} else {
 					b.WriteString(";")
